@@ -1,7 +1,753 @@
-//! C10 — not built yet.
+//! C10 — indexes, pruning, caching and execution strategy change speed, not answers.
+//!
+//! `physical`: one (graph history, query text) under index subsets x min/max summaries live/inert x
+//! index+range shortcuts reachable/blocked x factorized off/on; reference = no index, inert summaries,
+//! shortcuts blocked, flat. `cache`: session histories (execute / mutate / create+drop index / same text
+//! through the other front end) where every answer must equal a cold session on an identical fresh database.
 
-use crate::driver::Run;
+use std::collections::BTreeMap;
+
+use proptest::prelude::*;
+use serde::{Deserialize, Serialize};
+
+use grafeo_engine::query::optimizer::Optimizer;
+use grafeo_engine::query::plan::{BinaryOp, LogicalExpression, LogicalOperator, LogicalPlan};
+
+use crate::driver::{CaseResult, Failure, Run, fail, guard, hash_dbg, ok};
+use crate::props::c09::qgen::{
+    self, Built, CmpOp, Dir, GraphSpec, Hop, Join, Lang, Mid, Mutation, NKEYS, Operand, PVal, PathSpec, Pred, PropRef, QuerySpec, Ret, Rows,
+};
+
+// ------------------------------------------------------------------------------------------------
+// generators aimed at the planner's shortcuts
+// ------------------------------------------------------------------------------------------------
+
+fn eq_atom() -> impl Strategy<Value = Pred> {
+    // equality on x (values 0..4, Int or Float), y or s with a literal that usually occurs in the data
+    let key = prop_oneof![6 => Just(0u8), 2 => Just(1u8), 2 => Just(2u8), 1 => Just(3u8)];
+    (key, prop_oneof![4 => Just(false), 1 => Just(true)]).prop_flat_map(|(k, rev)| {
+        let l: BoxedStrategy<PVal> = match k {
+            0 => prop_oneof![6 => (0i64..4).prop_map(PVal::I), 2 => (0i64..4).prop_map(|i| PVal::F(i as f64)), 1 => Just(PVal::F(2.5)), 1 => qgen::lit().boxed()].boxed(),
+            1 => prop_oneof![6 => (-2i64..12).prop_map(PVal::I), 1 => (0i64..6).prop_map(|i| PVal::F(i as f64))].boxed(),
+            _ => qgen::lit_for(k),
+        };
+        (Just(PropRef { var: 0, key: k }), l, Just(rev))
+    }).prop_map(|(p, l, rev)| {
+        if rev { Pred::Cmp(Operand::L(l), CmpOp::Eq, Operand::P(p)) } else { Pred::Cmp(Operand::P(p), CmpOp::Eq, Operand::L(l)) }
+    })
+}
+
+fn range_atom() -> impl Strategy<Value = Pred> {
+    (qgen::propref(1), prop_oneof![Just(CmpOp::Lt), Just(CmpOp::Le), Just(CmpOp::Gt), Just(CmpOp::Ge)], any::<bool>()).prop_flat_map(|(p, op, rev)| (Just(p), qgen::lit_for(p.key), Just(op), Just(rev))).prop_map(
+        |(p, l, op, rev)| {
+            if rev { Pred::Cmp(Operand::L(l), op, Operand::P(p)) } else { Pred::Cmp(Operand::P(p), op, Operand::L(l)) }
+        },
+    )
+}
+
+fn between() -> impl Strategy<Value = Pred> {
+    (range_atom(), range_atom(), any::<bool>()).prop_map(|(a, b, same)| {
+        // force the same property on both sides most of the time
+        let b = match (&a, b, same) {
+            (Pred::Cmp(Operand::P(p), _, _), Pred::Cmp(Operand::P(_), op, l), true) => Pred::Cmp(Operand::P(*p), op, l),
+            (Pred::Cmp(_, _, Operand::P(p)), Pred::Cmp(l, op, Operand::P(_)), true) => Pred::Cmp(l, op, Operand::P(*p)),
+            (_, b, _) => b,
+        };
+        Pred::And(Box::new(a), Box::new(b))
+    })
+}
+
+fn and(a: Pred, b: Pred) -> Pred {
+    Pred::And(Box::new(a), Box::new(b))
+}
+
+/// Predicates over a single scanned variable that *partly* match the index / range / min-max patterns.
+fn scan_pred() -> BoxedStrategy<Pred> {
+    prop_oneof![
+        4 => (eq_atom(), qgen::atom(1)).prop_map(|(a, b)| and(a, b)).boxed(),
+        1 => (qgen::atom(1), eq_atom()).prop_map(|(a, b)| and(a, b)).boxed(),
+        2 => eq_atom().boxed(),
+        1 => (eq_atom(), eq_atom()).prop_map(|(a, b)| and(a, b)).boxed(),
+        1 => (eq_atom(), qgen::atom(1)).prop_map(|(a, b)| Pred::Or(Box::new(a), Box::new(b))).boxed(),
+        1 => (eq_atom(), qgen::atom(1), qgen::atom(1)).prop_map(|(a, b, c)| and(a, Pred::Or(Box::new(b), Box::new(c)))).boxed(),
+        3 => range_atom().boxed(),
+        3 => between().boxed(),
+        1 => (between(), qgen::atom(1)).prop_map(|(a, b)| and(a, b)).boxed(),
+        3 => qgen::pred(1).boxed(),
+    ]
+    .boxed()
+}
+
+fn ret1(nvars: u8) -> impl Strategy<Value = Ret> {
+    prop_oneof![
+        3 => proptest::collection::vec(qgen::propref(nvars), 1..=2).prop_map(|items| Ret::Props { items, distinct: false, order: None, skip: None, limit: None }),
+        2 => Just(Ret::CountStar),
+    ]
+}
+
+fn label() -> impl Strategy<Value = Option<u8>> {
+    prop_oneof![2 => Just(None), 3 => Just(Some(0u8)), 1 => Just(Some(1u8))]
+}
+
+/// `MATCH (n0[:L]) WHERE <scan_pred> RETURN ...`
+fn scan_query() -> impl Strategy<Value = QuerySpec> {
+    (label(), scan_pred(), ret1(1)).prop_map(|(label, p, ret)| QuerySpec {
+        paths: vec![PathSpec { join: Join::Comma, share: None, label, inline: None, hops: vec![] }],
+        pred: Some(p),
+        mid: Mid::None,
+        pred2: None,
+        ret,
+        write: None,
+    })
+}
+
+/// One hop with an edge variable; the predicate mentions the edge's properties (whose names also
+/// exist as node columns) and the end points.
+fn edge_query() -> impl Strategy<Value = QuerySpec> {
+    let dir = prop_oneof![3 => Just(Dir::Out), 1 => Just(Dir::In), 1 => Just(Dir::Both)];
+    let ty = prop_oneof![1 => Just(None), 1 => Just(Some(0u8))];
+    // vars: n0, n1, e0  (index 2 = the edge)
+    let epred = (prop_oneof![Just(0u8), Just(1u8)], prop_oneof![3 => (0i64..20).prop_map(PVal::I).boxed(), 1 => qgen::lit().boxed()], prop_oneof![Just(CmpOp::Eq), Just(CmpOp::Gt), Just(CmpOp::Ge), Just(CmpOp::Lt), Just(CmpOp::Ne)])
+        .prop_map(|(k, l, op)| Pred::Cmp(Operand::P(PropRef { var: 2, key: k }), op, Operand::L(l)))
+        .boxed();
+    let p = prop_oneof![
+        3 => epred.clone(),
+        2 => (epred.clone(), qgen::atom(3)).prop_map(|(a, b)| and(a, b)),
+        1 => (epred, qgen::atom(3)).prop_map(|(a, b)| Pred::Or(Box::new(a), Box::new(b))),
+        1 => qgen::pred(3),
+    ];
+    (label(), dir, ty, p, ret1(3)).prop_map(|(label, dir, ty, p, ret)| QuerySpec {
+        paths: vec![PathSpec {
+            join: Join::Comma,
+            share: None,
+            label,
+            inline: None,
+            hops: vec![Hop { dir, ty, evar: true, label: None, inline: None, einline: None, varlen: None }],
+        }],
+        pred: Some(p),
+        mid: Mid::None,
+        pred2: None,
+        ret,
+        write: None,
+    })
+}
+
+/// 2-3 hop chains (what runs factorized), optionally filtered and aggregated.
+fn chain_query() -> impl Strategy<Value = QuerySpec> {
+    let hop = (prop_oneof![4 => Just(Dir::Out), 1 => Just(Dir::In)], prop_oneof![2 => Just(None), 2 => Just(Some(0u8)), 1 => Just(Some(1u8))], prop_oneof![3 => Just(false), 1 => Just(true)])
+        .prop_map(|(dir, ty, evar)| Hop { dir, ty, evar, label: None, inline: None, einline: None, varlen: None });
+    (label(), proptest::collection::vec(hop, 2..=3)).prop_flat_map(|(label, hops)| {
+        let nv = (hops.len() + 1 + hops.iter().filter(|h| h.evar).count()) as u8;
+        let ret = prop_oneof![
+            3 => Just(Ret::CountStar),
+            2 => proptest::collection::vec(qgen::propref(nv), 1..=2).prop_map(|items| Ret::Props { items, distinct: false, order: None, skip: None, limit: None }),
+            1 => (qgen::propref(nv), qgen::propref(nv)).prop_map(|(a, g)| Ret::Agg { func: qgen::AggF::Count, arg: a, group: Some(g) }),
+        ];
+        (Just(label), Just(hops), prop_oneof![1 => Just(None), 1 => qgen::pred(nv).prop_map(Some)], ret).prop_map(|(label, hops, pred, ret)| QuerySpec {
+            paths: vec![PathSpec { join: Join::Comma, share: None, label, inline: None, hops }],
+            pred,
+            mid: Mid::None,
+            pred2: None,
+            ret,
+            write: None,
+        })
+    })
+}
+
+fn strip_limit(mut q: QuerySpec) -> QuerySpec {
+    if let Ret::Props { skip, limit, .. } = &mut q.ret {
+        *skip = None;
+        *limit = None;
+    }
+    if matches!(q.mid, Mid::WithLimit(_)) {
+        q.mid = Mid::None;
+        q.pred2 = None;
+    }
+    q
+}
+
+fn phys_query() -> BoxedStrategy<QuerySpec> {
+    prop_oneof![
+        5 => scan_query().boxed(),
+        2 => edge_query().boxed(),
+        2 => chain_query().boxed(),
+        2 => qgen::query(0).prop_map(strip_limit).boxed(),
+    ]
+    .boxed()
+}
+
+// ------------------------------------------------------------------------------------------------
+// physical configurations
+// ------------------------------------------------------------------------------------------------
+
+#[derive(Debug, Clone, Serialize, Deserialize)]
+pub struct PCase {
+    pub graph: GraphSpec,
+    /// applied after the indexes exist (index and min/max maintenance) ...
+    pub after_index: Vec<Mutation>,
+    /// ... unless the indexes are created last (built from existing data)
+    pub index_last: bool,
+    pub indexed: [bool; 4],
+    pub query: QuerySpec,
+    pub lang: Lang,
+}
+
+fn pcase(max_nodes: usize) -> impl Strategy<Value = PCase> {
+    (
+        prop_oneof![4 => qgen::graph(max_nodes, max_nodes * 2, false), 1 => qgen::graph(max_nodes, max_nodes * 2, true)],
+        qgen::mutations(6, false),
+        prop_oneof![3 => Just(false), 1 => Just(true)],
+        any::<[bool; 4]>(),
+        phys_query(),
+        prop_oneof![Just(Lang::Gql), Just(Lang::Cypher)],
+    )
+        .prop_map(|(graph, after_index, index_last, indexed, query, lang)| PCase { graph, after_index, index_last, indexed, query, lang })
+}
+
+type Outcome = Result<Rows, String>;
+
+#[derive(Debug, Clone, Copy, PartialEq, Eq, PartialOrd, Ord)]
+struct Cfg {
+    idx: u8, // 0 none, 1 the generated subset, 2 all keys
+    zm_live: bool,
+    shortcuts: bool,
+    fact: bool,
+}
+
+const REF: Cfg = Cfg { idx: 0, zm_live: false, shortcuts: false, fact: false };
+
+fn build_p(c: &PCase, idx: u8, zm_live: bool) -> Built {
+    let mut b = Built::new(true);
+    b.load(&c.graph);
+    let create = |b: &Built| {
+        for (k, on) in c.indexed.iter().enumerate() {
+            if idx == 2 || (idx == 1 && *on) {
+                b.db.create_property_index(NKEYS[k]);
+            }
+        }
+    };
+    if !c.index_last {
+        create(&b);
+    }
+    for m in &c.after_index {
+        b.apply(m);
+    }
+    if c.index_last {
+        create(&b);
+    }
+    if !zm_live {
+        b.neutralize_zone_maps();
+    }
+    b
+}
+
+fn agree(a: &Outcome, b: &Outcome) -> bool {
+    match (a, b) {
+        (Ok(x), Ok(y)) => qgen::sorted(x) == qgen::sorted(y),
+        (Err(_), Err(_)) => true,
+        _ => false,
+    }
+}
+
+fn short(o: &Outcome) -> String {
+    match o {
+        Ok(r) => crate::driver::truncate(&format!("{} rows {:?}", r.len(), qgen::sorted(r)), 400),
+        Err(e) => format!("Err({e})"),
+    }
+}
+
+fn relation(base: &Outcome, other: &Outcome) -> &'static str {
+    match (base, other) {
+        (Ok(b), Ok(o)) => {
+            if qgen::sub_multiset(b, o) {
+                "extra-rows"
+            } else if qgen::sub_multiset(o, b) {
+                "missing-rows"
+            } else {
+                "rows-differ"
+            }
+        }
+        (Ok(_), Err(e)) if e.contains("not found") => "column-not-found",
+        (Ok(_), Err(_)) => "error",
+        (Err(_), Ok(_)) => "rows-for-error",
+        _ => "other",
+    }
+}
+
+/// Facts about the `Filter(NodeScan)` operators of a plan (where the index / range shortcuts apply) and
+/// about filters in general (where the min/max check applies).
+#[derive(Default, Debug)]
+struct PlanFacts {
+    /// Filter directly over a plain NodeScan with an `var.key = literal` conjunct on an indexed key
+    index_applicable: bool,
+    /// ... and a further conjunct that is not such an equality
+    index_extra_conjunct: bool,
+    /// ... and the equality literal is numeric
+    index_numeric_literal: bool,
+    /// Filter directly over a plain NodeScan whose whole predicate is a range comparison / BETWEEN pair
+    range_applicable: bool,
+    range_numeric_literal: bool,
+    range_bool_literal: bool,
+    /// some filter compares a property of an edge variable with a literal
+    edge_prop_vs_literal: bool,
+    /// some filter compares a property with a literal using <>
+    ne_literal: bool,
+    /// some filter has a `prop op literal` comparison at all (min/max check reachable)
+    prop_vs_literal: bool,
+}
+
+fn and_chain<'a>(e: &'a LogicalExpression, out: &mut Vec<&'a LogicalExpression>) {
+    match e {
+        LogicalExpression::Binary { left, op: BinaryOp::And, right } => {
+            and_chain(left, out);
+            and_chain(right, out);
+        }
+        other => out.push(other),
+    }
+}
+
+fn prop_lit(e: &LogicalExpression) -> Option<(&str, &str, BinaryOp, &grafeo_common::types::Value)> {
+    if let LogicalExpression::Binary { left, op, right } = e {
+        match (left.as_ref(), right.as_ref()) {
+            (LogicalExpression::Property { variable, property }, LogicalExpression::Literal(v)) | (LogicalExpression::Literal(v), LogicalExpression::Property { variable, property }) => {
+                return Some((variable.as_str(), property.as_str(), *op, v));
+            }
+            _ => {}
+        }
+    }
+    None
+}
+
+fn walk_expr(e: &LogicalExpression, edge_vars: &[String], f: &mut PlanFacts) {
+    if let Some((var, _, op, _)) = prop_lit(e) {
+        if matches!(op, BinaryOp::Eq | BinaryOp::Ne | BinaryOp::Lt | BinaryOp::Le | BinaryOp::Gt | BinaryOp::Ge) {
+            f.prop_vs_literal = true;
+            if edge_vars.iter().any(|v| v == var) {
+                f.edge_prop_vs_literal = true;
+            }
+            if op == BinaryOp::Ne {
+                f.ne_literal = true;
+            }
+        }
+    }
+    match e {
+        LogicalExpression::Binary { left, right, .. } => {
+            walk_expr(left, edge_vars, f);
+            walk_expr(right, edge_vars, f);
+        }
+        LogicalExpression::Unary { operand, .. } => walk_expr(operand, edge_vars, f),
+        _ => {}
+    }
+}
+
+fn facts(op: &LogicalOperator, indexed: &dyn Fn(&str) -> bool, edge_vars: &mut Vec<String>, f: &mut PlanFacts) {
+    use grafeo_common::types::Value;
+    use LogicalOperator as L;
+    match op {
+        L::Filter(fl) => {
+            // children first so that edge variables below are known
+            facts(&fl.input, indexed, edge_vars, f);
+            walk_expr(&fl.predicate, edge_vars, f);
+            if let L::NodeScan(s) = fl.input.as_ref() {
+                if s.input.is_none() {
+                    let mut cs = Vec::new();
+                    and_chain(&fl.predicate, &mut cs);
+                    let is_eq = |c: &LogicalExpression| matches!(prop_lit(c), Some((v, _, BinaryOp::Eq, _)) if v == s.variable);
+                    let eqs: Vec<&LogicalExpression> = cs.iter().copied().filter(|c| is_eq(c)).collect();
+                    let hit = eqs.iter().any(|c| prop_lit(c).is_some_and(|(_, k, _, _)| indexed(k)));
+                    if hit {
+                        f.index_applicable = true;
+                        if cs.len() > eqs.len() {
+                            f.index_extra_conjunct = true;
+                        }
+                        if eqs.iter().any(|c| matches!(prop_lit(c), Some((_, _, _, Value::Int64(_) | Value::Float64(_))))) {
+                            f.index_numeric_literal = true;
+                        }
+                    }
+                    let is_range = |c: &LogicalExpression| matches!(prop_lit(c), Some((v, _, BinaryOp::Lt | BinaryOp::Le | BinaryOp::Gt | BinaryOp::Ge, _)) if v == s.variable);
+                    let whole_range = match &fl.predicate {
+                        LogicalExpression::Binary { left, op: BinaryOp::And, right } => is_range(left) && is_range(right),
+                        p => is_range(p),
+                    };
+                    if whole_range {
+                        f.range_applicable = true;
+                        for c in &cs {
+                            match prop_lit(c) {
+                                Some((_, _, _, Value::Int64(_) | Value::Float64(_))) => f.range_numeric_literal = true,
+                                Some((_, _, _, Value::Bool(_))) => f.range_bool_literal = true,
+                                _ => {}
+                            }
+                        }
+                    }
+                }
+            }
+        }
+        L::Expand(e) => {
+            facts(&e.input, indexed, edge_vars, f);
+            if let Some(v) = &e.edge_variable {
+                edge_vars.push(v.clone());
+            }
+        }
+        L::NodeScan(s) => {
+            if let Some(i) = &s.input {
+                facts(i, indexed, edge_vars, f);
+            }
+        }
+        L::Project(p) => facts(&p.input, indexed, edge_vars, f),
+        L::Join(j) => {
+            facts(&j.left, indexed, edge_vars, f);
+            facts(&j.right, indexed, edge_vars, f);
+        }
+        L::LeftJoin(j) => {
+            facts(&j.left, indexed, edge_vars, f);
+            facts(&j.right, indexed, edge_vars, f);
+        }
+        L::Aggregate(a) => facts(&a.input, indexed, edge_vars, f),
+        L::Limit(l) => facts(&l.input, indexed, edge_vars, f),
+        L::Skip(l) => facts(&l.input, indexed, edge_vars, f),
+        L::Sort(l) => facts(&l.input, indexed, edge_vars, f),
+        L::Distinct(l) => facts(&l.input, indexed, edge_vars, f),
+        L::Return(r) => facts(&r.input, indexed, edge_vars, f),
+        _ => {}
+    }
+}
+
+fn plan_facts(plan: &LogicalPlan, indexed: &dyn Fn(&str) -> bool) -> PlanFacts {
+    let mut f = PlanFacts::default();
+    let mut ev = Vec::new();
+    facts(&plan.root, indexed, &mut ev, &mut f);
+    f
+}
+
+fn has_del_node(ms: &[Mutation]) -> bool {
+    ms.iter().any(|m| matches!(m, Mutation::DelNode(_)))
+}
+
+fn hetero_graph(c: &PCase) -> bool {
+    // a column holding values of more than one kind (numeric / string / bool / null)
+    let kind = |v: &PVal| match v {
+        PVal::I(_) | PVal::F(_) => 0,
+        PVal::S(_) => 1,
+        PVal::B(_) => 2,
+        PVal::Null => 3,
+    };
+    let mut seen: BTreeMap<u8, Vec<i32>> = BTreeMap::new();
+    let mut add = |k: u8, v: &PVal| {
+        let e = seen.entry(k % 4).or_default();
+        if !e.contains(&kind(v)) {
+            e.push(kind(v));
+        }
+    };
+    for n in &c.graph.nodes {
+        for (k, v) in &n.props {
+            add(*k, v);
+        }
+    }
+    for m in &c.after_index {
+        match m {
+            Mutation::AddNode(n) => n.props.iter().for_each(|(k, v)| add(*k, v)),
+            Mutation::SetProp(_, k, v) => add(*k, v),
+            _ => {}
+        }
+    }
+    seen.values().any(|v| v.len() > 1)
+}
+
+pub fn check_physical(c: &PCase) -> CaseResult {
+    let lang = match c.lang {
+        Lang::Gql => "gql",
+        Lang::Cypher => "cypher",
+    };
+    let Some(text) = c.query.render(c.lang, false) else {
+        return ok(false, format!("{lang}/not-expressible"), hash_dbg(c));
+    };
+    let plan = match guard("translate", || qgen::translate(c.lang, &text))? {
+        Ok(p) => p,
+        Err(_) => return ok(false, format!("{lang}/rejected"), hash_dbg(c)),
+    };
+
+    let mut results: BTreeMap<Cfg, Outcome> = BTreeMap::new();
+    let mut opt_plan: Option<LogicalPlan> = None;
+    let idx_levels: &[u8] = if c.indexed.iter().any(|b| *b) && !c.indexed.iter().all(|b| *b) { &[0, 1, 2] } else { &[0, 2] };
+    for &idx in idx_levels {
+        for zm_live in [false, true] {
+            let b = guard("build", || build_p(c, idx, zm_live))?;
+            // same pipeline as Session::execute: statistics-backed optimizer with every rewrite on
+            let optimized = match guard("optimize", || Optimizer::from_store(b.db.store()).optimize(plan.clone()))? {
+                Ok(p) => p,
+                Err(e) => return fail("c10/optimize-error", format!("{text}: {e}")),
+            };
+            let blocked = LogicalPlan::new(qgen::with_scan_barrier(&optimized.root));
+            if opt_plan.is_none() {
+                opt_plan = Some(optimized.clone());
+            }
+            for shortcuts in [false, true] {
+                for fact in [false, true] {
+                    let p = if shortcuts { &optimized } else { &blocked };
+                    let o = guard("execute", || qgen::execute(&b.db, p, fact))?;
+                    results.insert(Cfg { idx, zm_live, shortcuts, fact }, o);
+                }
+            }
+        }
+    }
+    let opt_plan = opt_plan.unwrap();
+    let reference = results[&REF].clone();
+
+    let mismatch: Vec<Cfg> = results.iter().filter(|(_, o)| !agree(&reference, o)).map(|(k, _)| *k).collect();
+    if !mismatch.is_empty() {
+        let any_idx = |k: &str| NKEYS.iter().position(|n| *n == k).is_some();
+        let sub_idx = |k: &str| NKEYS.iter().position(|n| *n == k).is_some_and(|i| c.indexed[i]);
+        // single-feature probes, in order
+        let probe = |cfg: Cfg| -> Option<&Outcome> { results.get(&cfg).filter(|o| !agree(&reference, o)) };
+        let (sig, cfg): (String, Cfg) = if let Some(o) = probe(Cfg { fact: true, ..REF }) {
+            let chains = qgen::expand_chains(&opt_plan.root);
+            (format!("c10/factorized/{}{}", relation(&reference, o), if chains == 0 { "/no-chain" } else { "" }), Cfg { fact: true, ..REF })
+        } else if let Some(o) = probe(Cfg { zm_live: true, ..REF }) {
+            let f = plan_facts(&opt_plan, &any_idx);
+            let why = if f.edge_prop_vs_literal {
+                "edge-predicate"
+            } else if f.ne_literal && hetero_graph(c) {
+                "ne-on-mixed-type-column"
+            } else if hetero_graph(c) {
+                "mixed-type-column"
+            } else {
+                "node-predicate"
+            };
+            (format!("c10/minmax/{}/{why}", relation(&reference, o)), Cfg { zm_live: true, ..REF })
+        } else if let Some(o) = probe(Cfg { shortcuts: true, ..REF }) {
+            let f = plan_facts(&opt_plan, &any_idx);
+            let why = if !f.range_applicable {
+                "not-a-range-filter"
+            } else if f.range_bool_literal {
+                "bool-literal"
+            } else if f.range_numeric_literal {
+                "numeric-literal"
+            } else {
+                "other-literal"
+            };
+            (format!("c10/range-path/{}/{why}", relation(&reference, o)), Cfg { shortcuts: true, ..REF })
+        } else if let Some((cfg, o, f)) = [2u8, 1u8].iter().find_map(|&i| {
+            let cfg = Cfg { idx: i, shortcuts: true, ..REF };
+            let base = results.get(&Cfg { idx: 0, shortcuts: true, ..REF })?;
+            let o = results.get(&cfg)?;
+            if agree(base, o) {
+                return None;
+            }
+            let f = if i == 2 { plan_facts(&opt_plan, &any_idx) } else { plan_facts(&opt_plan, &sub_idx) };
+            Some((cfg, o, f))
+        }) {
+            let base = &results[&Cfg { idx: 0, shortcuts: true, ..REF }];
+            let why = if !f.index_applicable {
+                "index-path-not-applicable"
+            } else {
+                match (relation(base, o), f.index_extra_conjunct, f.index_numeric_literal, has_del_node(&c.after_index)) {
+                    ("extra-rows", true, _, _) => "extra-conjunct-dropped",
+                    ("extra-rows", false, _, true) => "deleted-node-still-indexed",
+                    ("missing-rows", _, true, _) => "numeric-literal-typed-lookup",
+                    _ => "other",
+                }
+            };
+            (format!("c10/index-path/{}/{why}", relation(base, o)), cfg)
+        } else {
+            (format!("c10/combination/{}", relation(&reference, &results[&mismatch[0]])), mismatch[0])
+        };
+        return fail(
+            sig,
+            format!(
+                "{text}\n reference (no index, inert min/max, shortcuts blocked, flat): {}\n {cfg:?}: {}\n all mismatching configurations: {:?}\n plan: {}",
+                short(&reference),
+                short(&results[&cfg]),
+                mismatch,
+                crate::driver::truncate(&format!("{:?}", opt_plan.root), 1200)
+            ),
+        );
+    }
+
+    // non-trivial: a predicate on an indexed or min/max-summarised property, rows in some configuration
+    let f = plan_facts(&opt_plan, &|k| NKEYS.iter().any(|n| *n == k));
+    let rows = results.values().any(|o| matches!(o, Ok(r) if !(r.is_empty() || (r.len() == 1 && r[0].iter().all(|v| v == "i:0" || v == "null")))));
+    let shape = if f.index_applicable && f.index_extra_conjunct {
+        "index+extra"
+    } else if f.index_applicable {
+        "index"
+    } else if f.range_applicable {
+        "range"
+    } else if f.edge_prop_vs_literal {
+        "edge-pred"
+    } else if qgen::expand_chains(&opt_plan.root) > 0 {
+        "chain"
+    } else if f.prop_vs_literal {
+        "minmax"
+    } else {
+        "other"
+    };
+    let class = format!("{lang}/{shape}/{}", if reference.is_err() { "err" } else if rows { "rows" } else { "empty" });
+    ok(f.prop_vs_literal && rows, class, hash_dbg(&(&c.graph, &c.after_index, c.index_last, c.indexed, &text)))
+}
+
+// ------------------------------------------------------------------------------------------------
+// plan cache / session histories
+// ------------------------------------------------------------------------------------------------
+
+#[derive(Debug, Clone, Serialize, Deserialize)]
+pub enum Step {
+    /// execute query `q` rendered for `text_lang` through the `run_lang` front end
+    Exec { q: u8, text_lang: Lang, run_lang: Lang },
+    Mutate(Vec<Mutation>),
+    CreateIndex(u8),
+    DropIndex(u8),
+}
+
+#[derive(Debug, Clone, Serialize, Deserialize)]
+pub struct HCase {
+    pub graph: GraphSpec,
+    pub queries: Vec<QuerySpec>,
+    pub steps: Vec<Step>,
+    pub factorized: bool,
+}
+
+fn lang() -> impl Strategy<Value = Lang> {
+    prop_oneof![Just(Lang::Gql), Just(Lang::Cypher)]
+}
+
+fn hcase(max_nodes: usize) -> impl Strategy<Value = HCase> {
+    let step = prop_oneof![
+        6 => (0u8..2, lang(), any::<bool>()).prop_map(|(q, l, cross)| {
+            let other = if l == Lang::Gql { Lang::Cypher } else { Lang::Gql };
+            Step::Exec { q, text_lang: l, run_lang: if cross { other } else { l } }
+        }),
+        2 => qgen::mutations(4, false).prop_map(Step::Mutate),
+        1 => (0u8..4).prop_map(Step::CreateIndex),
+        1 => (0u8..4).prop_map(Step::DropIndex),
+    ];
+    let q = prop_oneof![2 => scan_query().boxed(), 1 => chain_query().boxed(), 3 => qgen::query(0).boxed()].boxed();
+    (qgen::graph(max_nodes, max_nodes * 2, false), proptest::collection::vec(q, 2), proptest::collection::vec(step, 2..10), any::<bool>())
+        .prop_map(|(graph, queries, steps, factorized)| HCase { graph, queries, steps, factorized })
+}
+
+fn session_exec(b: &Built, session: &grafeo_engine::Session, lang: Lang, text: &str) -> Result<Outcome, Failure> {
+    let _ = b;
+    let r = guard("session.execute", || match lang {
+        Lang::Gql => session.execute(text),
+        Lang::Cypher => session.execute_cypher(text),
+    })?;
+    Ok(match r {
+        Ok(qr) => Ok(qr.rows.iter().map(|r| r.iter().map(qgen::canon).collect()).collect()),
+        Err(e) => Err(e.to_string()),
+    })
+}
+
+fn apply_step(b: &mut Built, s: &Step) {
+    match s {
+        Step::Mutate(ms) => ms.iter().for_each(|m| b.apply(m)),
+        Step::CreateIndex(k) => b.db.create_property_index(NKEYS[*k as usize % 4]),
+        Step::DropIndex(k) => {
+            b.db.drop_property_index(NKEYS[*k as usize % 4]);
+        }
+        Step::Exec { .. } => {}
+    }
+}
+
+pub fn check_history(c: &HCase) -> CaseResult {
+    let mut live = guard("build", || {
+        let mut b = Built::new(c.factorized);
+        b.load(&c.graph);
+        b
+    })?;
+    let session = live.db.session();
+    let mut seen_texts: Vec<(String, Lang)> = Vec::new();
+    let mut warm = 0usize;
+    let mut cross = 0usize;
+    let mut after_change = 0usize;
+    let mut rows_seen = false;
+    let mut changed_since: BTreeMap<String, bool> = BTreeMap::new();
+    for (i, s) in c.steps.iter().enumerate() {
+        match s {
+            Step::Exec { q, text_lang, run_lang } => {
+                let spec = &c.queries[*q as usize % c.queries.len()];
+                let Some(text) = spec.render(*text_lang, true) else { continue };
+                let got = session_exec(&live, &session, *run_lang, &text)?;
+                // cold: identical fresh database, fresh session, empty cache
+                let cold_db = guard("rebuild", || {
+                    let mut b = Built::new(c.factorized);
+                    b.load(&c.graph);
+                    for p in &c.steps[..i] {
+                        apply_step(&mut b, p);
+                    }
+                    b
+                })?;
+                let cold_session = cold_db.db.session();
+                let want = session_exec(&cold_db, &cold_session, *run_lang, &text)?;
+                let same = match (&got, &want) {
+                    (Ok(a), Ok(b)) => qgen::sorted(a) == qgen::sorted(b),
+                    (Err(_), Err(_)) => true,
+                    _ => false,
+                };
+                let was_seen_same = seen_texts.iter().any(|(t, l)| *t == text && l == run_lang);
+                let was_seen_other = seen_texts.iter().any(|(t, l)| *t == text && l != run_lang);
+                if !same {
+                    let sig = if was_seen_other && !was_seen_same {
+                        "c10/cache/answer-from-other-language"
+                    } else if was_seen_same {
+                        "c10/cache/warm-differs-from-cold"
+                    } else {
+                        "c10/cache/first-execution-differs-from-cold"
+                    };
+                    return fail(
+                        sig,
+                        format!("step {i}: {run_lang:?} {text}\n this session: {}\n cold session on an identical database: {}", short(&got), short(&want)),
+                    );
+                }
+                if was_seen_same {
+                    warm += 1;
+                    if changed_since.get(&text).copied().unwrap_or(false) {
+                        after_change += 1;
+                    }
+                }
+                if was_seen_other {
+                    cross += 1;
+                }
+                if matches!(&got, Ok(r) if !r.is_empty()) {
+                    rows_seen = true;
+                }
+                seen_texts.push((text.clone(), *run_lang));
+                changed_since.insert(text, false);
+            }
+            other => {
+                guard("step", || apply_step(&mut live, other))?;
+                for v in changed_since.values_mut() {
+                    *v = true;
+                }
+            }
+        }
+    }
+    let class = format!(
+        "{}{}{}{}",
+        if warm > 0 { "warm" } else { "cold-only" },
+        if after_change > 0 { "+after-change" } else { "" },
+        if cross > 0 { "+cross-language" } else { "" },
+        if rows_seen { "/rows" } else { "/empty" }
+    );
+    ok(warm > 0 && rows_seen, class, hash_dbg(c))
+}
 
 pub fn run(r: &mut Run) {
-    r.inconclusive("C10: check not built yet");
+    r.level = "exploration";
+    r.rule = "physical: generated (graph history with index creation before or after a mutation batch, query text) with predicates that partly \
+              match the index / range / min-max patterns (equality + extra conjuncts, OR, Int/Float literal forms, reversed operands, BETWEEN pairs, \
+              literals inside/outside the column range, edge properties named like node columns, missing properties, mixed-type columns in 1/5 of graphs), \
+              executed under index subsets {none, generated, all} x min/max summaries {live, made inert by a set+remove on a scratch node} x \
+              index/range shortcuts {reachable, blocked by an identity Skip(0) between Filter and NodeScan} x factorized {off,on}; \
+              non-trivial = the plan compares a property with a literal (index / range / min-max reachable) and some configuration returns rows. \
+              cache: session histories (execute, mutate, create/drop index, same text through the other front end); every answer is compared with a cold \
+              session on an identically rebuilt database; non-trivial = a plan-cache hit (same text, same language) that returns rows. \
+              distinct by hash of the case"
+        .into();
+    r.assumptions.push("the generic filter (FilterOperator + ExpressionPredicate over a full scan) defines the answer; shortcuts must agree with it".into());
+    r.assumptions.push("Skip(0) is the identity; it is inserted only to make the planner fall through to the generic filter".into());
+    r.assumptions.push("databases rebuilt from the same operation sequence are identical (ids are allocated sequentially)".into());
+
+    let nodes = if r.is_thorough() { 30 } else { 16 };
+    r.subcheck("physical", r.cases(10_000, 200_000), move || pcase(nodes), check_physical);
+    r.subcheck("cache", r.cases(4_000, 60_000), move || hcase(nodes), check_history);
 }
